@@ -1,3 +1,3 @@
 From Coq Require Import ExtrOcamlBasic ZArith.
-From RtoscV Require Import Undo.UndoModel.
-Extraction "model.ml" Z.add Z.mul Z.opp Z.modulo init step estep zero_store.
+From RtoscV Require Import Ports.SugarModel Undo.UndoModel Undo.UndoPortsModel.
+Extraction "model.ml" Z.add Z.mul Z.opp Z.modulo init hstep pstep tag.
